@@ -166,6 +166,7 @@ class ShardCtx:
         self.hyp_runs = 0
         self._journal: Dict[str, Dict[str, Any]] = {}
         self.exhaustive = None
+        self.current_path: Optional[str] = None  # where the running case is journalled (crash recovery)
 
     # -- helpers usable from check functions ------------------------------------------------
     def derived_seed(self, extra: int = 0) -> int:
@@ -193,6 +194,9 @@ class ShardCtx:
     def run_case(self, case, check, check_name: str, suppressed=frozenset()):
         """Run one case. Returns normally or raises PropertyViolation (journalled)."""
         self.evaluations += 1
+        if self.current_path and self.params.get("crash_journal"):
+            with open(self.current_path, "w") as fh:
+                fh.write(canon({"check": check_name, "case": case}))
         try:
             info = check(case, self)
         except PropertyViolation as v:
@@ -239,13 +243,21 @@ class ShardCtx:
 
             def body(case):
                 if ctx.over_budget():
-                    ctx.skipped_over_budget += 1
-                    return
+                    # Hypothesis re-raises KeyboardInterrupt at once: the only clean way to stop generation and
+                    # shrinking from inside; failures journalled so far are kept (smallest seen per bucket).
+                    ctx._stopped = True
+                    raise KeyboardInterrupt
                 ctx.run_case(case, check, check_name, frozen)
 
             test = hypothesis.seed(self.derived_seed(seed_extra + rnd * 7919))(st(given(strategy)(body)))
+            self._stopped = False
             try:
                 test()
+            except KeyboardInterrupt:
+                if not self._stopped:
+                    raise
+                self.notes.append(f"{check_name}: budget exhausted in round {rnd} after {self.evaluations} evaluations")
+                break
             except PropertyViolation as v:
                 # the exception Hypothesis re-raises comes from its final replay of the minimal case
                 last = self._journal.get(v.bucket)
@@ -318,6 +330,7 @@ def shard_main(argv: List[str]) -> int:
         phase = [p for p in mod.phases(spec["tier"]) if p.name == spec["phase"]][0]
         ctx = ShardCtx(spec["prop"], spec["tier"], spec["seed"], spec["shard"], phase.shards, phase.name,
                        phase.params, spec["known"], spec["budget_s"])
+        ctx.current_path = out + ".current"
         phase.fn(ctx)
         res = ctx.result()
         res["harness_error"] = None
@@ -338,8 +351,9 @@ def _spawn(spec: Dict[str, Any]) -> subprocess.Popen:
     env["PYTHONPATH"] = ROOT + os.pathsep + env.get("PYTHONPATH", "")
     env.setdefault("OMP_NUM_THREADS", "1")
     env.setdefault("OPENBLAS_NUM_THREADS", "1")
+    err = open(spec["out"] + ".stderr", "wb")
     return subprocess.Popen([sys.executable, "-m", "vfw.shard", json.dumps(spec)], cwd=ROOT, env=env,
-                            stdout=subprocess.DEVNULL, stderr=subprocess.DEVNULL)
+                            stdout=subprocess.DEVNULL, stderr=err)
 
 
 def replay_entry(mod, check_name: Optional[str], case, known=()):
@@ -390,6 +404,7 @@ def run_check(prop: str, tier: str, seed: int) -> int:
     tmp = tempfile.mkdtemp(prefix=f"vfw-{prop}-")
     results: List[Dict[str, Any]] = []
     harness_errors: List[str] = []
+    crashes: List[Dict[str, Any]] = []
     try:
         max_par = int(os.environ.get("VERIF_JOBS", "16" if tier == "thorough" else "8"))
         for phase in mod.phases(tier):
@@ -416,7 +431,20 @@ def run_check(prop: str, tier: str, seed: int) -> int:
                             still.append((k, out, p, ts))
                         continue
                     if not os.path.exists(out):
-                        harness_errors.append(f"{phase.name}[{k}] died without result (rc={rc})")
+                        tail = ""
+                        try:
+                            tail = open(out + ".stderr", "rb").read()[-800:].decode("utf-8", "replace")
+                        except OSError:
+                            pass
+                        jpath = out + ".current"
+                        if rc is not None and rc < 0 and os.path.exists(jpath):
+                            # the SUT killed the interpreter (abort / segfault) while running this case
+                            cur = json.load(open(jpath))
+                            crashes.append({"bucket": f"process-crash:signal{-rc}", "check": cur["check"], "case": cur["case"],
+                                            "message": f"the process died with signal {-rc} while running this case: {tail[-300:]}",
+                                            "detail": None, "size": len(canon(cur["case"]))})
+                        else:
+                            harness_errors.append(f"{phase.name}[{k}] died without result (rc={rc}): {tail}")
                         continue
                     r = json.load(open(out))
                     if r.get("harness_error"):
@@ -455,6 +483,10 @@ def run_check(prop: str, tier: str, seed: int) -> int:
             cur = best.get(f["bucket"])
             if cur is None or f["size"] < cur["size"]:
                 best[f["bucket"]] = f
+    for c in crashes:
+        cur = best.get(c["bucket"])
+        if cur is None or c["size"] < cur["size"]:
+            best[c["bucket"]] = c
     violations.extend(best.values())
 
     os.makedirs(os.path.join(ROOT, "out"), exist_ok=True)
